@@ -15,7 +15,7 @@ PROP = "C10"
 RULE = ("cases = D in {2,3} x N odd/even x L x field class (white/band/div-free/compressible-gradient) for the projections; class x order 1-4 x viscosity/drag/forcing x "
         "rollout length for the histories; every scan iteration is one judged event (recorded from inside the compiled rollout); distinct = (monitor, D, N parity, "
         "field class | class, order, iteration bucket); non-trivial = input has non-zero divergence (projections) / state is non-zero (histories)")
-REQUIRED = {"leray": {"quick": 60, "thorough": 300}, "make_incompressible": {"quick": 60, "thorough": 300}, "rot3d_divfree": {"quick": 10, "thorough": 60},
+REQUIRED = {"leray": {"quick": 60, "thorough": 300}, "make_incompressible": {"quick": 60, "thorough": 300}, "rot3d_divfree": {"quick": 10, "thorough": 36},
             "rollout_divfree": {"quick": 150, "thorough": 2000}}
 REQUIRED_TAPS = {"ns3_step:traced": 150}
 ASSUMPTIONS = ["Nyquist-free fields for the physical-space routines (the property's precondition)", "float64"]
